@@ -204,8 +204,13 @@ Definition sp_take (c : cfg) (st : astate) (nx : N) (v : nat) (k : tkind) (idx :
 Definition resizable (bk : bkind) : bool := match bk with BHeap | BReloc _ => true | _ => false end.
 
 (** capacity management ([want = Some n]: reserve / reserve_exact for [n] more elements; [None]: shrink_to_fit /
-    shrink_to) never changes the elements; it panics when [len + n] is not representable or exceeds a fixed
-    capacity.  [None] result: the call does not type-check on that backend (outside the language). *)
+    shrink_to) never changes the elements; it panics when [len + n] is not representable, exceeds a fixed
+    capacity, or needs more bytes than any allocation can have.  [None] result: the call does not type-check on that backend (outside the language). *)
+(** the largest request (in bytes) a resizable backend accepts: the heap backend refuses what is no valid [Layout]
+    (size overflowing isize when rounded up to the alignment), the harness's relocating backend what its allocator
+    cannot serve *)
+Definition layout_limit (c : cfg) (bk : bkind) : N :=
+  match bk with BReloc _ => alloc_limit | _ => isize_max - (c_al c - 1) end.
 Definition sp_capacity (c : cfg) (st : astate) (nx : N) (v : nat) (want : option N) (exact : bool) : option sres :=
   match get_a v st with
   | None => None
@@ -215,7 +220,13 @@ Definition sp_capacity (c : cfg) (st : astate) (nx : N) (v : nat) (want : option
           let len := N.of_nat (length (a_xs a)) in
           if usize_max <? len + n then Some (panic_res POverflow [] st nx)
           else match acap c (a_bk a) with
-               | None => Some (ok_res [] [] st nx)
+               | None =>
+                   (* resizable: a request whose size in bytes is not representable, or no valid layout, panics
+                      (and never reaches the allocator); nothing changes *)
+                   let bytes := c_sz c * (len + n) in
+                   if layout_limit c (a_bk a) <? bytes
+                   then Some (panic_res (if usize_max <? bytes then POverflow else PLayout) [] st nx)
+                   else Some (ok_res [] [] st nx)
                | Some cap => if len + n <=? cap then Some (ok_res [] [] st nx)
                              else if exact then None else Some (panic_res PCapacity [] st nx)
                end
